@@ -200,7 +200,7 @@ struct SlabEngine : Engine {
 						size_t lim = (size_t)(tier ? 4000 : 1100); if (p.ntasks > 1) lim = 300;
 						while (K > 2 && per * K > lim) K--;
 						if (per * K <= lim) { o.a[2] = (int64_t)(per * K); o.a[3] = 4 + rng.below(3); }
-					}
+					} else if (rng.chance(1, 5)) { o.a[3] = 7; o.a[2] = 60 + rng.below(tier ? 1200 : 400); if (p.ntasks > 1 && o.a[2] > 200) o.a[2] = 200; } // many live blocks across ALL classes at once
 				}
 				else { o.kind = OP_CHURN; o.a[1] = (int64_t)gen_size(rng, P, focus, false); o.a[2] = tier ? 50 + rng.below(3000) : 10 + rng.below(300); o.a[3] = 1 + rng.below(6);
 					if (rng.chance(1, tier ? 40 : 150)) { o.a[2] = 66000 + rng.below(3000); o.a[3] = 1 + rng.below(2); o.a[1] = (int64_t)class_size((int)rng.below(3)); } } // a counter that only wraps after 2^16 allocations
@@ -828,13 +828,18 @@ struct SlabEngine : Engine {
 			for (int x : hs) {
 				Op a = op; a.kind = OP_ALLOC; // map-failure bits of the bulk op index its map calls across all of its pool calls
 				uint64_t before = total_maps;
+				if (pat == 7) { // a different size for every block: every class, now and then a large frame
+					uint64_t r = fill_rng().next(); int ci = (int)(r % (uint64_t)pi.num_buckets);
+					n = class_size(ci) - (size_t)((r >> 8) % (class_size(ci) / 2 + 1)); if (!n) n = 1;
+					if ((r >> 40) % 37 == 0) n = max_small + 1 + (size_t)((r >> 20) % (2 * pi.pagesize));
+				}
 				if (!do_alloc(me, a, x, n, false)) { if (op.mapfail & NORETRY) continue; break; }
 				got.push_back(x); probe(P_bulk_blocks);
 				if (total_maps != before && total_maps - maps0 >= 2 && !filled) { filled = true; probe(P_slab_filled); }
 				progress();
 			}
 			auto rel = [&](int x, int mode) { Op a = op; a.mapfail = 0; do_free(me, a, x, mode, blk[x].req); progress(); };
-			if (pat == 0) for (int x : got) rel(x, 0);
+			if (pat == 0 || pat == 7) for (size_t i = 0; i < got.size(); i++) rel(got[pat == 7 ? (i * 7919) % got.size() == i ? i : i : i], (int)(i & 1));
 			else if (pat == 1) for (size_t i = got.size(); i-- > 0;) rel(got[i], 1);
 			else if (pat == 2) { for (size_t i = 0; i < got.size(); i += 2) rel(got[i], 0); for (size_t i = 1; i < got.size(); i += 2) rel(got[i], 0); }
 			else if (pat >= 4) {
